@@ -27,7 +27,7 @@ RULE = ('part 1: cases = complete answer sequences of a scripted detector (all o
 ASSUMPTIONS = ['detector contract: None or an index in [0, len-2]; t2 >= detector minimum (curvature/DFDT/Menger/Kneedle 2, L-method 3)',
                'gate: endpoint-line SMAPE within 1e-9 of t1 (but not equal) is ambiguous',
                'self-similarity is differential (the wrapper on the two slices), no hand-written expectation']
-BOUNDS = {'quick': {'scripted': 'all answer sequences for n<=9, t2 in 0..4, 3 gate modes', 'real detectors': 'A n<=4, A12 n=5, A1 n=6,7, C n=4; t1 in {0,0.01,0.5}; t2 in {minimum, default}'},
+BOUNDS = {'quick': {'scripted': 'all answer sequences for n<=9, t2 in 0..4, 3 gate modes', 'real detectors': 'A n<=4, A12 n=5, A1 n=6,7, C n=4, G12Y013 n=5 re-embedded (tiny/huge units), trace windows web0_reduced w=16 and usr0[::64] w=20; t1 in {0,0.01,0.5}; t2 in {minimum, default}'},
           'thorough': {'scripted': 'all answer sequences for n<=11 (t2=0), n<=12 (t2>=1)', 'real detectors': 'A n<=5, G12Y013 n=6, A1 n=7,8, C n=5'}}
 TECHNIQUE = 'stateless choice-point exploration of the multi-knee wrapper with a scripted detector (all answer sequences) plus bounded-exhaustive differential self-similarity on the real detectors'
 LEVEL_TEXT = ('Model checking: (1) every answer sequence of an arbitrary contract-honouring detector up to n=9 (12 thorough) against the reference recursion - this covers the '
@@ -204,6 +204,9 @@ def units(tier, seed):
         plan = [('A', 3, 1), ('A', 4, 16), ('A12', 5, 32), ('A1', 6, 8), ('A1', 7, 32), ('C', 4, 4)]
     else:
         plan = [('A', 3, 1), ('A', 4, 8), ('A', 5, 512), ('G12Y013', 6, 128), ('A1', 7, 64), ('A1', 8, 256), ('C', 5, 32)]
+    plan += [('Tweb0r', 16, 8), ('Tusr0s64', 20, 16)] if tier == 'quick' else [('Tweb0r', 16, 8), ('Tweb0r', 32, 8), ('Tusr0s64', 20, 16), ('Tusr0s64', 40, 16), ('Tusr0s8', 32, 64)]
+    for p in curves.tiny_family(curves.G12Y013):
+        plan.append((p.name, 5, 16))
     b = curves.bonus(seed)
     plan.append((b.name, 4, 16))
     for prof, n, K in plan:
